@@ -1149,6 +1149,11 @@ func c07Header(c *Ctx, pk, pa *packages.Package) {
 						}
 					}
 				}
+				if len(conj) == 1 {
+					if e2, n2, isH := c07DupHelper(p, info, conj[0]); isH {
+						eqPrev, noComment = e2, n2
+					}
+				}
 				c.Ob("HEADER-PARTITION", "skip-in-"+name+"-loop", ifs.Pos(), eqPrev && noComment, true, "an element of the header is written unless it is a comment-free duplicate of its predecessor: guard %q: same name as previous=%v, comment-free=%v", short(exprString(ue.X), 80), eqPrev, noComment)
 			}
 			return true
@@ -1185,6 +1190,11 @@ func c07Header(c *Ctx, pk, pa *packages.Package) {
 								noComment = true
 							}
 						}
+					}
+				}
+				if len(conj) == 1 {
+					if e2, n2, isH := c07DupHelper(p, info, conj[0]); isH {
+						eqPrev, noComment = e2, n2
 					}
 				}
 				okGuard = eqPrev && noComment
@@ -1572,6 +1582,8 @@ func c07WriterCoverage(c *Ctx, pk *packages.Package, nodeIface *types.Interface)
 	// delegation edges and entry detection
 	delegates := map[string][]string{} // "func/param" -> callee "func/param"
 	entry := map[string]bool{}
+	// entry writers that are handed something other than a part of an option name at some call site
+	entryNotOptionNamePart := map[string]bool{}
 	for _, fr := range p.FuncsOf(pk) {
 		if fr.Decl.Body == nil {
 			continue
@@ -1596,6 +1608,32 @@ func c07WriterCoverage(c *Ctx, pk *packages.Package, nodeIface *types.Interface)
 					delegates[fd.Name.Name+"/"+v.Name()] = append(delegates[fd.Name.Name+"/"+v.Name()], calleeKey)
 				} else {
 					entry[calleeKey] = true
+					fromParts := false
+					isPartsOf := func(e ast.Expr) bool {
+						sel, ok := ast.Unparen(e).(*ast.SelectorExpr)
+						return ok && sel.Sel.Name == "Parts" && strings.HasSuffix(types.TypeString(info.TypeOf(sel.X), nil), "ast.OptionNameNode")
+					}
+					switch a := ast.Unparen(arg).(type) {
+					case *ast.IndexExpr:
+						fromParts = isPartsOf(a.X)
+					case *ast.Ident:
+						if o := info.Uses[a]; o != nil {
+							ast.Inspect(fd.Body, func(m ast.Node) bool {
+								if rs, ok := m.(*ast.RangeStmt); ok && rs.Value != nil && identObj(info, rs.Value) == o && isPartsOf(rs.X) {
+									fromParts = true
+								}
+								if as, ok := m.(*ast.AssignStmt); ok && len(as.Lhs) == 1 && len(as.Rhs) == 1 && identObj(info, as.Lhs[0]) == o {
+									if ix, ok := ast.Unparen(as.Rhs[0]).(*ast.IndexExpr); ok && isPartsOf(ix.X) {
+										fromParts = true
+									}
+								}
+								return true
+							})
+						}
+					}
+					if !fromParts {
+						entryNotOptionNamePart[calleeKey] = true
+					}
 				}
 			}
 			return true
@@ -1633,6 +1671,11 @@ func c07WriterCoverage(c *Ctx, pk *packages.Package, nodeIface *types.Interface)
 				continue
 			}
 			if _, ok := c07WriterExempt[fp.fd.Name.Name+":"+f]; ok {
+				continue
+			}
+			// the reason of the writeFieldReference exemption, by structure: a writer that only ever receives parts
+			// of an option name never sees an Any URL prefix
+			if fp.named.Obj().Name() == "FieldReferenceNode" && (f == "URLPrefix" || f == "Slash") && !entryNotOptionNamePart[k] {
 				continue
 			}
 			if !got[f] {
